@@ -335,6 +335,8 @@ pub fn c17(out: &mut dyn Write, tier: &str, rng: &mut Rng, st: &mut Stats) {
     }
     // root 3: a few puzzles (the formula has 729 variables; only structure and solution soundness)
     let solved9 = "534678912672195348198342567859761423426853791713924856961537284287419635345286179";
+    // only one digit given (all nine 9s, all nine 1s, all nine 5s): the other eight digits may be permuted freely
+    for keep_digit in ['9', '1', '5'] { cases.push((3, solved9.chars().map(|c| if c == keep_digit { c } else { '.' }).collect())); }
     let n3 = if tier == "thorough" { 50 } else { 4 };
     for _ in 0..n3 {
         let keep = 20 + rng.below(40);
